@@ -104,6 +104,34 @@ def run(res, f, tier):
         else:
             res.violation(key, what, detail)
 
+    # a once-initialised cell around a crate-local type made of plain owned data (checked field by field, transitively
+    # through crate-local types) is read-only state like the empty RuleSet
+    ONCE_CELL = re.compile(r"^(lazy_static::lazy::Lazy|std::sync::LazyLock|std::sync::OnceLock|std::cell::LazyCell)<([\w:]+)(, fn\(\) -> [\w:]+)?>$")
+
+    def plain_data(adt_path, seen=None):
+        seen = seen or set()
+        if adt_path in seen:
+            return True
+        seen.add(adt_path)
+        a_ = f.adts.get(adt_path)
+        if not a_ or not a_.get("local"):
+            return False
+        for v_ in a_["variants"]:
+            for fl_ in v_["fields"]:
+                if fl_.get("freeze") is False or fl_.get("ty_s", "").startswith("&mut "):
+                    return False
+                for m_ in fl_.get("mentions", []):
+                    base_ = m_.split("<")[0]
+                    if INTERIOR.search(base_):
+                        return False
+                    if base_ in f.adts and f.adts[base_].get("local") and not plain_data(base_, seen):
+                        return False
+        return True
+
+    def once_cell_of_plain_data(ty_s):
+        m_ = ONCE_CELL.match(ty_s)
+        return bool(m_) and plain_data(m_.group(2))
+
     # ---- 1. no hidden state: statics, thread-locals
     for s in f.statics:
         key = "C12|static|%s" % s["path"]
@@ -111,7 +139,7 @@ def run(res, f, tier):
             ob(False, key, "`static mut` %s at %s" % (s["path"], s["span"]))
         elif s["thread_local"]:
             ob(False, key, "thread-local static %s at %s" % (s["path"], s["span"]))
-        elif not s["freeze"] and s["ty_s"] not in ALLOWED_STATICS and not ONCE_CELL_OF_DATA.match(s["ty_s"]):
+        elif not s["freeze"] and s["ty_s"] not in ALLOWED_STATICS and not ONCE_CELL_OF_DATA.match(s["ty_s"]) and not once_cell_of_plain_data(s["ty_s"]):
             ob(False, key, "static %s: %s has interior mutability (state shared between evaluations)" % (s["path"], s["ty_s"]), s)
         else:
             ob(True, key, "")
